@@ -46,6 +46,13 @@ CHECKS.update({
                           "scenarios (every malformed/well-formed class x every fragmentation x reads) replayed into the real code and judged by Mon_C05 in TLC, incl. the "
                           "fail-fast clause on byte offsets.",
             "level_note": _NOTE + "Table comparison (spec automaton row vs real validator verdict) is a lookup in Python against the TLC-printed table. Fail-fast demanded only without permessage-deflate."},
+    "C02": {"technique": "explicit TLA+ byte-level parser model (spec/Parser.tla) checked by TLC over all streams x all cut sets; TLC-generated streams (spec/GenC02.tla) executed under all cut sets against the real code; pairs of traces judged by the TLA+ monitor Mon_C02 evaluated by TLC",
+            "level_text": "TLC checks that the byte-level model of parser.py's feed loop (three branches incl. re-feeding what follows the header terminator) yields results that are a "
+                          "function of the bytes consumed, for every stream of the bounded grammar and every segmentation; its maximal streams are replayed into the real "
+                          "FrameParser (whole and bytewise). Streams generated by TLC (HTTP reply variants + frames, valid/invalid/fragmented/compressed) are executed through "
+                          "the whole stack as one read and under all 2^(n-1) cut sets of the frame part (n <= 7 quick / 11 thorough), cuts at every position around the "
+                          "reply terminator and one byte per read; Mon_C02 (TLC) demands identical observables.",
+            "level_note": _NOTE + "Cut sets are enumerated by the harness over the concrete bytes; longer streams get seeded random cut sets; time is frozen."},
     "C14": _sess("Mon_C14", "pongs = answerable pings (payload, order, multiplicity), each written before its Ping event; none with auto_pong off; failing pong writes do not disturb the event stream (twin run)",
                  "<= 3 (quick) / 4 frames incl. 125-byte all-byte-values ping blobs, several items per read, application send/close reactions, failing writes."),
 })
